@@ -59,6 +59,16 @@ def plans_for(ctx, c, r0, pairs):
                 plans.append(('chain', [f'clamp copy_file_range D/f {off} 1 {a}', f'clamp copy_file_range D/f {off + a} 1 {b2}', f'clamp copy_file_range D/f {off + a + b2} 1 1']))
             else:
                 plans.append(('chain', [f'clamp copy_file_range D/f * 1 {a}', f'clamp copy_file_range D/f * 2 {b2}', f'clamp copy_file_range D/f * 3 1']))
+        if req > 3:   # a short count followed by a hard error on the retry, inside one block / one copy loop
+            a = max(1, req // 3)
+            if c.driver == 'parblock':
+                plans.append(('short-then-error', [f'clamp copy_file_range D/f {off} 1 {a}', f'fail copy_file_range D/f 2 {E["ENOSPC"]}']))
+            else:
+                plans.append(('short-then-error', [f'clamp copy_file_range D/f * 1 {a}', f'fail copy_file_range D/f 2 {E["EIO"]}']))
+        if req > 3:   # a short count, then ENOSYS/EXDEV on the retry: the rest of the block goes through user space, from the RIGHT offset
+            a = max(1, req // 3)
+            en = rng.choice(['ENOSYS', 'EXDEV', 'EPERM'])
+            plans.append(('short-then-unsupported', [f'clamp copy_file_range D/f {off if c.driver == "parblock" else "*"} 1 {a}', f'failo copy_file_range D/f {off + a} 1 {E[en]}']))
         big = max(1, scen.data_bytes(data)[0] // 120)
         plans.append(('all-short', [f'clamp copy_file_range D/f * * {big}']))
         for en in ('ENOSYS', 'EXDEV', 'EPERM'):
@@ -70,6 +80,8 @@ def plans_for(ctx, c, r0, pairs):
                 plans.append(('uspace-short-read', base + [f'clamp read S/f * * {small}', f'clamp pread64 S/f * * {small}']))
                 plans.append(('uspace-short-write', base + [f'clamp write D/f * 1 {small}', f'clamp pwrite64 D/f * 1 {small}']))
                 plans.append(('uspace-eintr', base + [f'fail read S/f 1 {E["EINTR"]}', f'fail read S/f 3 {E["EINTR"]}']))
+                # the source delivers fewer bytes than its size says (sysfs, a file truncated meanwhile): read returns 0 early
+                plans.append(('uspace-early-eof', base + ['clamp read S/f * 2 0', 'clamp pread64 S/f * 2 0']))
         plans.append(('cfr-always-ENOSYS', [f'fail copy_file_range * * {E["ENOSYS"]}']))
         plans.append(('cfr-EIO', [f'fail copy_file_range D/f 1 {E["EIO"]}']))
     if c.reflink == 'auto':
@@ -79,7 +91,7 @@ def plans_for(ctx, c, r0, pairs):
         plans.append(('fiemap-EOPNOTSUPP', [f'fail ioctl fiemap * {E["EOPNOTSUPP"]}']))
         plans.append(('fiemap-EOPNOTSUPP+short', [f'fail ioctl fiemap * {E["EOPNOTSUPP"]}', f'clamp copy_file_range D/f * 1 5']))
     if ctx.quick and len(plans) > 9:
-        keep = plans[:2] + rng.sample(plans[2:], 7)
+        keep = plans[:2] + [p for p in plans if p[0] in ('short-then-error', 'short-then-unsupported')] + rng.sample([p for p in plans[2:] if p[0] not in ('short-then-error', 'short-then-unsupported')], 5)
         plans = keep
     return plans
 
